@@ -626,7 +626,26 @@ func (h *hist) preHistory(r *replica, other []byte, blockNo int) string {
 	return "line"
 }
 
+// probeProposals re-proposes on the current head many times and counts distinct results (diagnosis of order-dependent
+// block application: every call iterates Go maps in a fresh order)
+func (h *hist) probeProposals(n int) {
+	roots := map[string]int{}
+	el := h.eligible()
+	for _, prop := range el {
+		for i := 0; i < n; i++ {
+			h.w.SetNow(prop.n.Chain.Head.Time() + 30)
+			p := prop.n.Chain.ProposeBlock([]byte{})
+			k := fmt.Sprintf("%s:%x/%x/txs=%d/flags=%d", prop.name, p.Block.Root().Bytes()[:6], p.Block.IdentityRoot().Bytes()[:6], len(p.Block.Body.Transactions), p.Block.Header.Flags())
+			roots[k]++
+		}
+	}
+	fmt.Fprintf(os.Stderr, "PROBE height=%d %v\n", h.ref.n.Chain.Head.Height(), roots)
+}
+
 func (h *hist) block() bool {
+	if pa := os.Getenv("VERIF_PROBE_AT"); pa != "" && fmt.Sprint(h.ref.n.Chain.Head.Height()) == pa {
+		h.probeProposals(1500)
+	}
 	el := h.eligible()
 	noProposer := len(el) == 0
 	if noProposer {
@@ -690,6 +709,16 @@ func (h *hist) block() bool {
 			case period == state.LongSessionPeriod:
 				delay = maxI(20, nv+int64(12*60)+2-head)
 			}
+		}
+		if pa := os.Getenv("VERIF_PROBE_PROP"); pa != "" && fmt.Sprint(height) == pa {
+			roots := map[string]int{}
+			for i := 0; i < 3000; i++ {
+				h.w.SetNow(prop.n.Chain.Head.Time() + delay)
+				p := prop.n.Chain.ProposeBlock([]byte{})
+				k := fmt.Sprintf("%s:%x/%x/txs=%d/flags=%d", prop.name, p.Block.Root().Bytes()[:6], p.Block.IdentityRoot().Bytes()[:6], len(p.Block.Body.Transactions), p.Block.Header.Flags())
+				roots[k]++
+			}
+			fmt.Fprintf(os.Stderr, "PROBE-PROP height=%d %v\n", height, roots)
 		}
 		h.inZone(prop, func() { blk = prop.n.Propose(delay) })
 		data = sim.Encode(blk)
